@@ -19,7 +19,7 @@ ASSUMPTIONS = [
     "MDAM and PointerNetwork do not go through DecodingStrategy.step per decoder call in a way the tap can align; MDAM's normalisation is covered via C14 (fixed defect), PointerNetwork via the round trip only when the tap aligns",
     "beam search is C13's subject",
 ]
-REQUIRED_COUNTERS = ["c11_forwards", "c11_step_rows", "c11_forced_steps", "c11_padding_step_rows", "c11_entropy_checked", "c11_sum_checked", "c11_roundtrips", "c11_roundtrips_replicated", "c11_stepwise_rows"]
+REQUIRED_COUNTERS = ["c11_forwards", "c11_step_rows", "c11_forced_steps", "c11_padding_step_rows", "c11_entropy_checked", "c11_sum_checked", "c11_roundtrips", "c11_roundtrips_replicated", "c11_stepwise_rows", "c11_flagged_function_calls", "c11_flagged_policy_rows"]
 MIN_NONTRIVIAL = {"quick": 900, "thorough": 8000}
 WORKERS = {"quick": 14, "thorough": 16}
 BUDGET_S = {"quick": 500, "thorough": 3000}
@@ -64,13 +64,16 @@ def cases(tier, seed):
             for clip in (10, 0, 3):
                 for r in range(2 if q else 6):
                     out.append(dict(kind="stepwise", env=env, extra=extra, B=B, clip=clip, s=rnd.randrange(10**6), wseed=r))
+    for B in (1, 3, 6):
+        for r in range(3 if q else 10):
+            out.append(dict(kind="flagged", B=B, T=rnd.choice([4, 9]), N=rnd.choice([3, 7]), n=rnd.choice([6, 9]), s=rnd.randrange(10**6)))
     return out
 
 
 def run_case(ctx, case):
     from vlib import c11impl
 
-    (c11impl.stepwise_case if case.get("kind") == "stepwise" else c11impl.case)(ctx, case)
+    {"stepwise": c11impl.stepwise_case, "flagged": c11impl.flagged_case}.get(case.get("kind"), c11impl.case)(ctx, case)
 
 
 MANIFEST = {
